@@ -46,11 +46,15 @@ class MiniLoop(asyncio.AbstractEventLoop):
     def default_exception_handler(self, context) -> None:
         self._exc.append(context)
     def run_in_executor(self, executor, func, *args):
+        # the function runs at once (no real thread), but - as with a real executor, whose completion reaches the loop through
+        # call_soon_threadsafe - its result becomes visible in a LATER loop iteration: the awaiting coroutine is always suspended once
         fut = self.create_future()
         try:
-            fut.set_result(func(*args))
+            r = func(*args)
         except Exception as e:  # noqa
-            fut.set_exception(e)
+            self.call_soon(lambda: fut.done() or fut.set_exception(e))
+        else:
+            self.call_soon(lambda: fut.done() or fut.set_result(r))
         return fut
     # -- running
     def run_until_complete(self, coro):
